@@ -549,6 +549,20 @@ def run_histories(run, n_hist, n_ops, out):
             out.append((st, dflt, 'srv.host', hist_case(sizes, seed, dflt, ops, i), False))
 
 
+def run_optional(run, n, out):
+    """directed histories: read operations on existing class-level and instance-level targets with every optional
+    parameter omitted (None) / True / False (a None parameter is not on the wire: the server applies its default)"""
+    rng = run.rng
+    for _ in range(n):
+        sizes = {'root/a': rng.choice([2, 3, 5]), 'root/b': 0}
+        seed = rng.getrandbits(24)
+        ops = c04gen.gen_optional_history(rng, sizes)
+        steps = O.run_history(sizes, seed, ops, 'root/a')
+        for i, st in enumerate(steps):
+            out.append((st, 'root/a', 'srv.host', hist_case(sizes, seed, 'root/a', ops, i), False))
+        run.count('stream_optional_histories')
+
+
 def run_nearmiss(run, n, out):
     rng = run.rng
     for _ in range(n):
@@ -682,8 +696,10 @@ def run(run):
                 'embedded instances; CIMParameter / tuple / keyword forms) against method providers that echo the inputs or '
                 'answer with generated return values / output parameters of every CIM type as scalar and array (FALSE '
                 'booleans, NULL items, empty arrays); (e) histories through a REAL loopback HTTP server (whole client stack '
-                'incl. urllib3 retry logic) where the reply to one request is lost after the server executed it; (f) probes '
-                'for the recorded findings. One K case = one call (6 comparisons: request bytes, '
+                'incl. urllib3 retry logic) where the reply to one request is lost after the server executed it; (f) directed read operations on class-level and '
+                'instance-level targets with every optional parameter omitted / True / False; the HTTP stream varies the '
+                'reply Content-Type (application/xml | text/xml, with and without charset) and carries non-ASCII data; '
+                '(g) probes for the recorded findings. One K case = one call (6 comparisons: request bytes, '
                 'request tree, server view, response bytes, client result, whole exchange); non-trivial = a request was '
                 'sent; distinct = distinct (operation, arguments, result) JSON')
     run.assumptions += [
@@ -747,9 +763,9 @@ def _run_all(run, with_model):
     run_probes(run, out)
     plan = [(run_histories, 500 if thorough else 60, 12), (run_nearmiss, 2000 if thorough else 200, None),
             (run_scripted, 6000 if thorough else 800, None), (run_invoke, 1500 if thorough else 150, None),
-            (run_http, 120 if thorough else 24, None)]
+            (run_http, 120 if thorough else 24, None), (run_optional, 60 if thorough else 8, None)]
     for fn, total, extra in plan:
-        chunk = 100 if fn in (run_histories, run_http) else 1000
+        chunk = 100 if fn in (run_histories, run_http, run_optional) else 1000
         done = 0
         while done < total:
             n = min(chunk, total - done)
@@ -785,6 +801,7 @@ def search(run):
         run_scripted(run, 300, out)
         run_invoke(run, 60, out)
         run_http(run, 10, out)
+        run_optional(run, 5, out)
         for st, dflt, host, case, scripted in out:
             oracle_step(run, st, dflt, case, scripted)
         new = [v for v in run.violations[before:] if not any(common.matches(f, PROP, v['sig']) for f in known)]
